@@ -157,3 +157,14 @@ CASES += [
     {"name": "bath counter written out, state recorded after it advanced", "kind": "mutant", "rule": "C16-N", "edits": [
         (_MOL16, _D_OLD, "                    nob = nob + 1\n                    d[nob] = j\n", 1)]},
 ]
+
+_HE9 = "quantarhei/qm/liouvillespace/heom.py"
+CASES += [
+    {"name": "rho.V taken as the adjoint of V.rho in the cross-tier terms (seeded change of round 9)", "kind": "mutant", "rule": "C16-O",
+     "edits": [(_HE9, "                    rl = numpy.dot(ado1[jj,:,:],self.hy.Vs[kk,:,:])\n", "                    rl = numpy.conj(rr.T)\n", 2)]},
+    {"name": "rho.V taken as the conjugate transpose of V.rho in the raising term only", "kind": "mutant", "rule": "C16-O",
+     "edits": [(_HE9, "                    rr = numpy.dot(self.hy.Vs[kk,:,:], ado1[jj, :,:])\n                    rl = numpy.dot(ado1[jj,:,:],self.hy.Vs[kk,:,:])\n",
+                "                    rr = numpy.dot(self.hy.Vs[kk,:,:], ado1[jj, :,:])\n                    rl = rr.conj().transpose()\n", 1)]},
+    {"name": "rho.V written with the @ operator", "kind": "twin",
+     "edits": [(_HE9, "                    rl = numpy.dot(ado1[jj,:,:],self.hy.Vs[kk,:,:])\n", "                    rl = ado1[jj,:,:] @ self.hy.Vs[kk,:,:]\n", 2)]},
+]
